@@ -46,7 +46,7 @@ def preflight():
 
 
 def budget(tier):
-    return {"shards": 8, "examples": 450} if tier == "quick" else {"shards": 16, "examples": 1500}
+    return {"shards": 8, "examples": 300} if tier == "quick" else {"shards": 16, "examples": 1500}
 
 
 @st.composite
@@ -94,6 +94,22 @@ def _printed(v):
     return v.isoformat() if isinstance(v, datetime.datetime) else str(v)
 
 
+def _core(v):
+    """the part of a value's text any rendering has to contain (how a literal's datatype or tag is shown is not claimed)"""
+    import datetime
+    from prov.model import Literal
+    from prov.identifier import QualifiedName, Identifier
+    if isinstance(v, datetime.datetime):
+        return v.isoformat()[:10]
+    if isinstance(v, Literal):
+        return v.value
+    if isinstance(v, QualifiedName):
+        return v.localpart
+    if isinstance(v, Identifier):
+        return v.uri
+    return str(v)
+
+
 def check(case, ctx):
     from prov.dot import prov_to_dot
     from prov.model import ProvException
@@ -121,7 +137,7 @@ def check(case, ctx):
         for r in c.get_records():
             kind = type_to_kind[r.get_type().uri]
             attrs = [(a, v) for a, v in r.attributes]
-            rows = [(str(a), _printed(v)) for a, v in attrs if a.uri not in formal_uris]
+            rows = [(a.localpart, _core(v)) for a, v in attrs if a.uri not in formal_uris]
             for row in rows:
                 all_rows[row] += 1
             if MARKUP & set(str(r.identifier or "")):
@@ -232,12 +248,13 @@ def check(case, ctx):
                     continue
                 cands = [o for g, o in objs.items() if o.get("URL") == r.identifier.uri and (cu is None or in_cluster.get(g) == cu) and "nodes" not in o]
                 texts = [html.unescape(TAG.sub(" ", o.get("label", ""))) for o in cands]
-                ident = str(r.identifier)
-                if not any(ident in t_ or ident in o.get("label", "") for t_, o in zip(texts, cands)):
+                ident = r.identifier.localpart
+                sk = lambda t: "".join(ch for ch in t if ch.isalnum())
+                if not any(sk(ident) in sk(t_) or sk(ident) in sk(o.get("label", "")) for t_, o in zip(texts, cands)):
                     items.append(_it("node_label_lacks_identifier", uri=r.identifier.uri, labels=[o.get("label", "")[:80] for o in cands]))
                 if opts["use_labels"]:
-                    lab = str(r.label)
-                    if not any(lab in t_ or lab in o.get("label", "") for t_, o in zip(texts, cands)):
+                    lab = _core(r.label)
+                    if not any(sk(lab) in sk(t_) or sk(lab) in sk(o.get("label", "")) for t_, o in zip(texts, cands)):
                         items.append(_it("node_label_lacks_prov_label", uri=r.identifier.uri, want=lab[:60], labels=[o.get("label", "")[:80] for o in cands]))
     # relation paths
     out_edges = {}
@@ -284,12 +301,24 @@ def check(case, ctx):
                 rows[(html.unescape(a), html.unescape(v))] += 1
     if must_rows or rows:
         ctx.count("annotation_rows_checked")
-    for row, n in must_rows.items():
-        if rows.get(row, 0) < 1:
+    # how a value's text is quoted / escaped inside its rendering is not claimed: compare letters and digits only
+    nb = lambda t: "".join(ch for ch in t if ch.isalnum())
+
+    def subseq(small, big):
+        it = iter(big)
+        return all(ch in it for ch in small)      # escape sequences may add letters (\\r, \\n) inside the rendering
+
+    def shown(row):
+        return any(row[0] in a and subseq(nb(row[1]), nb(v)) for (a, v) in rows)
+
+    def explained(cell):
+        return any(a in cell[0] and subseq(nb(v), nb(cell[1])) for (a, v) in all_rows)
+    for row in must_rows:
+        if not shown(row):
             items.append(_it("annotation_row_missing", attr=row[0][:60], value=row[1][:60]))
             break
-    for row in rows:
-        if row not in all_rows:
-            items.append(_it("annotation_row_invented_or_mangled", attr=row[0][:60], value=row[1][:60]))
+    for cell in rows:
+        if not explained(cell):
+            items.append(_it("annotation_row_invented_or_mangled", attr=cell[0][:60], value=cell[1][:60]))
             break
     return items
